@@ -346,6 +346,84 @@ fn boxes_of_every_constructor(rng: &mut Rng) {
     emit_oracle_only("circle.boxes", &Tok::new(), &Tok::new(), &v);
 }
 
+/// a circle against a CURVE (`Intersection<&Circle2> for Curve2`): coarse polylines with spans much longer
+/// than the circle, fine ones, circles of every size; the crossings of every span are decided here by the
+/// quadratic of that span alone
+fn curve_circle(rng: &mut Rng) {
+    use engeom::geom2::Curve2;
+    let n = *rng.pick(&[2usize, 3, 4, 6, 12, 40]);
+    let ext = rng.range(2.0, 30.0);
+    let mut pts: Vec<Point2> = Vec::new();
+    match rng.below(3) {
+        0 => {
+            for _ in 0..n {
+                pts.push(Point2::new(rng.range(-ext, ext), rng.range(-ext, ext)));
+            }
+        }
+        1 => {
+            // a closed polygon
+            for k in 0..n.max(3) {
+                let a = 2.0 * PI * k as f64 / n.max(3) as f64;
+                pts.push(Point2::new(ext * a.cos(), 0.6 * ext * a.sin()));
+            }
+            pts.push(pts[0]);
+        }
+        _ => {
+            for k in 0..n {
+                pts.push(Point2::new(-ext + 2.0 * ext * k as f64 / (n - 1) as f64, rng.range(-1.0, 1.0)));
+            }
+        }
+    }
+    let Ok(curve) = Curve2::from_points(&pts, 1e-9, false) else { return };
+    let v_ = curve.points().to_vec();
+    // a circle centred near a point of the curve, small or large compared with the spans
+    let k = rng.below(v_.len() - 1);
+    let on = v_[k] + (v_[k + 1] - v_[k]) * rng.unit();
+    let r = ext * 10f64.powf(rng.range(-2.0, 0.3));
+    let c = Point2::new(on.x + rng.range(-1.0, 1.0) * r, on.y + rng.range(-1.0, 1.0) * r);
+    let circle = Circle2::new(c.x, c.y, r);
+    let mut expect = 0usize;
+    let mut ambiguous = false;
+    for w in v_.windows(2) {
+        let d = w[1] - w[0];
+        let f = w[0] - c;
+        let (dd, fd, ff) = (d.norm_squared(), f.dot(&d), f.norm_squared() - r * r);
+        let disc = fd * fd - dd * ff;
+        if disc.abs() <= 1e-9 * (fd * fd + (dd * ff).abs()).max(1e-300) {
+            ambiguous = true;
+            continue;
+        }
+        if disc < 0.0 {
+            continue;
+        }
+        for sg in [-1.0, 1.0] {
+            let t = (-fd + sg * disc.sqrt()) / dd;
+            if t.abs() < 1e-7 || (t - 1.0).abs() < 1e-7 {
+                ambiguous = true;
+            } else if t > 0.0 && t < 1.0 {
+                expect += 1;
+            }
+        }
+    }
+    let mut v = Verdict::new();
+    match guarded(|| curve.intersection(&circle)) {
+        Err(e) => v.require(false, "curve_circle.panics", || e.clone()),
+        Ok(got) => {
+            let sc = 1.0 + ext + r;
+            for p in &got {
+                v.require(p.x.is_finite() && p.y.is_finite(), "curve_circle.finite_coordinates", || format!("{p:?}"));
+                v.require(((p - c).norm() - r).abs() <= 1e-8 * sc, "curve_circle.points_on_the_circle", || format!("{p:?}: off by {:e}", (p - c).norm() - r));
+                let dmin = v_.windows(2).map(|w| { let ab = w[1] - w[0]; let t = ((p - w[0]).dot(&ab) / ab.norm_squared()).clamp(0.0, 1.0); (p - (w[0] + ab * t)).norm() }).fold(f64::INFINITY, f64::min);
+                v.require(dmin <= 1e-8 * sc, "curve_circle.points_on_the_curve", || format!("{p:?}: {dmin:e} from the curve"));
+            }
+            if !ambiguous {
+                v.require(got.len() == expect, "curve_circle.every_crossing_of_every_span_reported", || format!("{} spans (longest {:.3}), circle radius {r:.3e}: {} crossings, {} reported", v_.len() - 1, v_.windows(2).map(|w| (w[1] - w[0]).norm()).fold(0.0, f64::max), expect, got.len()));
+            }
+        }
+    }
+    emit_oracle_only("circle.curve", &Tok::new(), &Tok::new(), &v);
+}
+
 pub fn run(rng: &mut Rng, n: usize) {
     for _ in 0..n {
         for _ in 0..4 {
@@ -355,5 +433,8 @@ pub fn run(rng: &mut Rng, n: usize) {
         }
         case("circle.case", "c11.library_call_panics", || arcs(rng));
         case("circle.case", "c11.library_call_panics", || boxes_of_every_constructor(rng));
+        for _ in 0..3 {
+            case("circle.case", "c11.library_call_panics", || curve_circle(rng));
+        }
     }
 }
